@@ -155,3 +155,64 @@ func H_C09_clock(k, kind, pack, step int) {
 	defer func() { c09ClockStep = 1000 }()
 	H_C09_results(k, kind, pack)
 }
+
+// H_C09_error_for_hinted: caller A declared a vector result (decoder hint), caller B an object.  The server answers
+// A with an rpc_error - a call that declares a vector can fail like any other - and B with its object; plain
+// messages (pack 0) or one container with A's error first (pack 1); optionally gzip-packed error (pack 2).
+// A gets the error (with the server's code), B its own result, the loop survives.
+func H_C09_error_for_hinted(pack int) {
+	verifrt.SetClock(1600000000, 0, 1000)
+	n := newNetEnv(11)
+	n.startReader()
+	var vals [2]interface{}
+	var errsGot [2]error
+	var done [2]int
+	for i := 0; i < 2; i++ {
+		go func(i int) {
+			req := &objects.PingParams{PingID: int64(1000 + i)}
+			if i == 0 {
+				vals[i], errsGot[i] = n.m.MakeRequestWithHintToDecoder(req, reflect.TypeOf([]int64{}))
+			} else {
+				vals[i], errsGot[i] = n.m.MakeRequest(req)
+			}
+			done[i]++
+		}(i)
+	}
+	var acks []sentMsg
+	var reqs [2]sentMsg
+	for j := 0; j < 2; j++ {
+		r := n.nextRequest(&acks)
+		b := r.body
+		reqs[int(int64(uint64(b[4])|uint64(b[5])<<8|uint64(b[6])<<16|uint64(b[7])<<24)-1000)] = r
+	}
+	code := verifrt.I32()
+	token := verifrt.I64()
+	errBody := mustMarshal(&objects.RpcError{ErrorCode: code, ErrorMessage: "SOMETHING_WRONG"})
+	if pack == 2 {
+		errBody = gzipPacked(errBody)
+	}
+	bodies := [][]byte{rpcResult(reqs[0].msgID, errBody), rpcResult(reqs[1].msgID, mustMarshal(&objects.Pong{MsgID: reqs[1].msgID, PingID: token}))}
+	if pack == 1 {
+		n.deliver(container([]int64{nextSrvID(), nextSrvID()}, []int32{1, 3}, bodies), 100)
+	} else {
+		first := verifrt.Choice(2)
+		n.deliver(bodies[first], 1)
+		n.deliver(bodies[1-first], 3)
+	}
+	verifrt.Quiesce()
+	verifrt.Assert(n.loopErr == nil, "receive-loop-alive")
+	verifrt.Assert(done[0] == 1, "hinted-caller-returned-exactly-once")
+	if done[0] == 1 {
+		verifrt.Assert(errsGot[0] != nil && vals[0] == nil, "hinted-caller-got-the-error")
+		if e, ok := errsGot[0].(*ErrResponseCode); ok {
+			verifrt.Assert(e.Code == int(code), "hinted-caller-got-the-server-code")
+		} else {
+			verifrt.Assert(false, "hinted-caller-error-is-structured")
+		}
+	}
+	verifrt.Assert(done[1] == 1, "other-caller-returned-exactly-once")
+	if done[1] == 1 {
+		p, ok := vals[1].(*objects.Pong)
+		verifrt.Assert(errsGot[1] == nil && ok && p.PingID == token, "other-caller-got-its-own-result")
+	}
+}
